@@ -15,10 +15,22 @@ and fed to the model)
              `dir=c2s|s2c` (who writes), `gate=0|1` (1: the writer's ChangeCipherSpec + Finished
              reach the reader's transport together with the application records, as one byte
              stream cut by `seg`; the reader's handshake ends inside that stream)
+             optional, both phases (omitted = 0, so older replays stay valid):
+             `eof=1`   the reader's transport reports end-of-stream TOGETHER with its last chunk
+                       (`n > 0, err == io.EOF` in one Read) instead of by a separate empty Read
+             `last=<n>` the last chunk consists of the final n bytes of the stream (n <= 512); the
+                       bytes before it are cut by `seg`
+             `hc=1 w2=<size>,.. seg2=<..> bufs2=<..>`  half-close: the first writer calls CloseWrite
+                       after its writes (the request: `w`, `seg`, `bufs`; `close` is 1) and keeps
+                       reading; the peer reads to end-of-stream, writes `w2` (the response) and
+                       closes; the half-closed side reads it with `seg2` / `bufs2`.  `eof` / `last`
+                       then describe the transport of the response (the request's transport never
+                       ends).  The two directions are judged independently by the same spec.
   observed : `[bs0=<n> ps0=<n> pre=<header lengths of the kept-back handshake records>|-
               hs=<ok|eof|other: the reader's handshake, when gate=1>|-]
               n=<write returns> recs=<header lengths> pl=<plaintext lengths>|?
               reads=<len>/<ok|eof|other>,.. data=<hex of everything read>`
+             hc=1 adds `[bs2=<n> ps2=<n>] n2= recs2= pl2= reads2= data2=` for the response
 -/
 import Gotlcp.Oracle.Common
 import Gotlcp.Model.RecordTxFacts
@@ -87,6 +99,13 @@ partial def chunkBy (pat : List Nat) (w : Bytes) : List Bytes :=
       | n :: ps' => go (w.drop n) ps' (acc.push (w.take n))
   (go w pat #[]).toList
 
+/-- the transport's chunks: `seg` cycled; with `last > 0` the final `last` bytes form the last chunk -/
+def chunksOf (seg : List Nat) (last : Nat) (w : Bytes) : List Bytes :=
+  if last == 0 || w.isEmpty then chunkBy seg w
+  else
+    let k := w.length - min last w.length
+    chunkBy seg (w.take k) ++ [w.drop k]
+
 def showEnd : Option RxErr → String
   | none => "ok"
   | some .eof => "eof"
@@ -154,6 +173,64 @@ def cutBy : List Nat → Bytes → List Bytes
   | [], _ => []
   | n :: ns, d => d.take n :: cutBy ns (d.drop n)
 
+/-- one direction of a connection as the model predicts it -/
+structure DirModel where
+  hs : String := "-"
+  finLen : Nat := 0
+  n : String
+  recs : String
+  pl : String
+  reads : String
+  data : String
+
+/-- the model's prediction for one direction: the writer (mode `k`, counters `bs`/`ps`) makes the
+writes `ws` and closes (`close`); its byte stream — behind the last handshake flight when `gate` —
+reaches the reader's transport cut by `seg`/`last`, the end reported with the last chunk when
+`eof`; the reader, whose receive half is prepared by `prep` (identity, or `CloseWrite` before it
+reads), reads with `bufs`.  `none` = the sender model is stuck. -/
+def predictDir (k : Kind) (dyn : Nat) (bs ps : Nat) (ws : List Bytes) (close : Nat)
+    (seg : List Nat) (last : Nat) (eof : Bool) (bufs : List Nat) (total : Nat) (gate : Bool)
+    (prep : Rx → Rx) (plKnown : Bool) : Option DirModel :=
+  match RecordTx.writes factsTx (dyn == 0) k ⟨bs, ps⟩ ws with
+  | none => none
+  | some (recs, ns, _) =>
+    let bodies := recs.map (protect k)
+    let alertBody := protect k [UInt8.ofNat factsRx.levelWarning, UInt8.ofNat factsRx.alertCloseNotify]
+    let wire := (bodies.map (frame factsRx.typeAppData)).flatten ++
+      (if close == 1 then frame factsRx.typeAlert alertBody else [])
+    let bodies := if close == 1 then bodies ++ [alertBody] else bodies
+    -- gate=1: the reader is still in its handshake; the peer's ChangeCipherSpec and Finished
+    -- (placeholder verify data, placeholder protection of the right length) come first
+    let finBody := protect k (finishedPlain)
+    let flight := frame factsRx.typeCCS [1] ++ frame factsRx.typeHandshake finBody
+    let chunks := chunksOf seg last (if gate then flight ++ wire else wire)
+    let io : RecordRx.Raw := { raw := [], chunks := chunks, eofWithLast := eof }
+    let (hs, start) : String × Rx :=
+      if gate then
+        match RecordRx.readLastFlight factsRx factsHs (unprotect k) (fun _ => true) { io := io } with
+        | (e, s1) => (showEnd e, RecordRx.finishHandshake s1)
+      else ("-", { io := io })
+    let outs := (readLoop (unprotect k) bufs (readCap total) (prep start)).toList
+    let rd := if outs.isEmpty then "-" else ",".intercalate (outs.map fun (x : Bytes × Option RxErr) => s!"{x.1.length}/{showEnd x.2}")
+    some { hs := hs, finLen := finBody.length, n := showNats ns, recs := showNats (bodies.map (·.length)),
+           pl := if plKnown then showNats (recs.map (·.length)) else "?", reads := rd,
+           data := Hex.encode (outs.map (·.1)).flatten }
+
+/-- the spec on one direction as observed (`sfx` = "" or "2": which observation keys) -/
+def specDir (ot : List String) (sfx : String) (ws : List Bytes) (k : Kind) (close : Nat) : Option (String × String) :=
+  match (kv ot ("n" ++ sfx)).bind parseNats, (kv ot ("recs" ++ sfx)).bind parseNats, kv ot ("pl" ++ sfx),
+      (kv ot ("reads" ++ sfx)).bind parseReads, kvHex ot ("data" ++ sfx) with
+  | some ns, some recs, some pl, some rds, some data =>
+    if (rds.map (·.1)).foldl (· + ·) 0 != data.length then some ("shape", "reads and data disagree") else
+    let wireLens := if close == 1 && !recs.isEmpty then recs.dropLast else recs
+    let plain := if pl == "?" then some none else (parseNats pl).map some
+    match plain with
+    | none => some ("shape", "unparseable pl")
+    | some plain =>
+      Spec.Stream.check { writes := ws, returned := ns, mode := specMode k, wireLens := wireLens, plainLens := plain,
+                          reads := (cutBy (rds.map (·.1)) data).zip (rds.map (·.2)) }
+  | _, _, _, _, _ => some ("shape", "unparseable observation")
+
 def judgeStream (ct : List String) (o : String) : Option Verdict := do
   let ot := tokens o
   let k ← (kv ct "kind").bind parseKind
@@ -163,6 +240,11 @@ def judgeStream (ct : List String) (o : String) : Option Verdict := do
   let close ← kvNat ct "close"
   let seg ← (kv ct "seg").bind parseNats
   let bufs ← (kv ct "bufs").bind parseNats
+  let eof := (kvNat ct "eof") == some 1
+  let last := (kvNat ct "last").getD 0
+  let hc := (kvNat ct "hc") == some 1
+  -- a half-closing writer always ends its direction with CloseWrite
+  let close := if hc then 1 else close
   -- the sender's counters: given, or (real handshake) observed
   let bs ← (kvNat ot "bs0").orElse (fun _ => kvNat ct "bs")
   let ps ← (kvNat ot "ps0").orElse (fun _ => kvNat ct "ps")
@@ -173,48 +255,46 @@ def judgeStream (ct : List String) (o : String) : Option Verdict := do
   let total := (sizes.foldl (· + ·) 0)
   let e2e := (kv ct "ph") == some "e2e"
   let gate := e2e && (kvNat ct "gate") == some 1
+  -- half-close: the response direction
+  let sizes2 := if hc then ((kv ct "w2").bind parseNats).getD [] else []
+  let seg2 := ((kv ct "seg2").bind parseNats).getD seg
+  let bufs2 := ((kv ct "bufs2").bind parseNats).getD bufs
+  let ws2 := writesOf (seed + 1) sizes2
+  let total2 := (sizes2.foldl (· + ·) 0)
+  let bs2 := (kvNat ot "bs2").getD 0
+  let ps2 := (kvNat ot "ps2").getD 0
+  let pre2 := match kvNat ot "bs2", kvNat ot "ps2" with
+    | some a, some b => s!"bs2={a} ps2={b} "
+    | _, _ => ""
+  let plKnown := (kv ot "pl") != some "?"
   let model : String :=
-    match RecordTx.writes factsTx (dyn == 0) k ⟨bs, ps⟩ ws with
+    -- the request's transport does not end, so `eof`/`last` describe the response's when hc=1
+    match predictDir k dyn bs ps ws close seg (if hc then 0 else last) (eof && !hc) bufs total gate id plKnown with
     | none => "stuck"
-    | some (recs, ns, _) =>
-      let bodies := recs.map (protect k)
-      let alertBody := protect k [UInt8.ofNat factsRx.levelWarning, UInt8.ofNat factsRx.alertCloseNotify]
-      let wire := (bodies.map (frame factsRx.typeAppData)).flatten ++
-        (if close == 1 then frame factsRx.typeAlert alertBody else [])
-      let bodies := if close == 1 then bodies ++ [alertBody] else bodies
-      -- gate=1: the reader is still in its handshake; the peer's ChangeCipherSpec and Finished
-      -- (placeholder verify data, placeholder protection of the right length) come first
-      let finBody := protect k (finishedPlain)
-      let flight := frame factsRx.typeCCS [1] ++ frame factsRx.typeHandshake finBody
-      let chunks := chunkBy seg (if gate then flight ++ wire else wire)
-      let (hs, start) : String × Rx :=
-        if gate then
-          match RecordRx.readLastFlight factsRx factsHs (unprotect k) (fun _ => true) { io := ⟨[], chunks⟩ } with
-          | (e, s1) => (showEnd e, RecordRx.finishHandshake s1)
-        else ("-", { io := ⟨[], chunks⟩ })
-      let outs := (readLoop (unprotect k) bufs (readCap total) start).toList
-      let rd := if outs.isEmpty then "-" else ",".intercalate (outs.map fun (x : Bytes × Option RxErr) => s!"{x.1.length}/{showEnd x.2}")
-      let pl := if (kv ot "pl") == some "?" then "?" else showNats (recs.map (·.length))
-      let pre := if e2e then s!"{pre}pre={if gate then showNats [1, finBody.length] else "-"} hs={hs} " else pre
-      s!"{pre}n={showNats ns} recs={showNats (bodies.map (·.length))} pl={pl} reads={rd} data={Hex.encode (outs.map (·.1)).flatten}"
+    | some d =>
+      let pre := if e2e then s!"{pre}pre={if gate then showNats [1, d.finLen] else "-"} hs={d.hs} " else pre
+      let first := s!"{pre}n={d.n} recs={d.recs} pl={d.pl} reads={d.reads} data={d.data}"
+      if !hc then first else
+      -- the half-closed side has called CloseWrite before it reads the response
+      let prep : Rx → Rx := fun rx => (RecordDuplex.closeWrite RecordRx.factsDuplex { rx := rx }).2.rx
+      match predictDir k dyn bs2 ps2 ws2 1 seg2 last eof bufs2 total2 false prep ((kv ot "pl2") != some "?") with
+      | none => first ++ " stuck"
+      | some d2 => s!"{first} {pre2}n2={d2.n} recs2={d2.recs} pl2={d2.pl} reads2={d2.reads} data2={d2.data}"
   -- spec on the observation
   let spec : Option (String × String) :=
     if (kv ot "panic").isSome then some ("panic", "the record layer panicked on an honest stream") else
     if (kv ot "handshake").isSome then some ("handshake", "the honest handshake before the stream failed") else
     if gate && (kv ot "hs") != some "ok" then
       some ("handshake", "the reader's handshake failed on an honest last flight that arrived together with application data") else
-    match (kv ot "n").bind parseNats, (kv ot "recs").bind parseNats, kv ot "pl", (kv ot "reads").bind parseReads, kvHex ot "data" with
-    | some ns, some recs, some pl, some rds, some data =>
-      if (rds.map (·.1)).foldl (· + ·) 0 != data.length then some ("shape", "reads and data disagree") else
-      let wireLens := if close == 1 && !recs.isEmpty then recs.dropLast else recs
-      let plain := if pl == "?" then some none else (parseNats pl).map some
-      match plain with
-      | none => some ("shape", "unparseable pl")
-      | some plain =>
-        Spec.Stream.check { writes := ws, returned := ns, mode := specMode k, wireLens := wireLens, plainLens := plain,
-                            reads := (cutBy (rds.map (·.1)) data).zip (rds.map (·.2)) }
-    | _, _, _, _, _ => some ("shape", "unparseable observation")
-  pure { model := model, spec := spec, trivial := total == 0 }
+    match specDir ot "" ws k close with
+    | some f => some f
+    | none =>
+      if !hc then none else
+      -- the other direction of the same connection, after the first was shut down: same property
+      match specDir ot "2" ws2 k 1 with
+      | some (tag, why) => some (tag, "in the direction that is still open after this side's CloseWrite: " ++ why)
+      | none => none
+  pure { model := model, spec := spec, trivial := total + total2 == 0 }
 
 def judge (c o : String) : Option Verdict := do
   let ct := tokens c
